@@ -1,7 +1,40 @@
-//! Crash-image enumeration for C14.  Filled in later.
-use serde_json::Value;
+//! Crash-image enumeration for C14.
+//!
+//! The device kept the ordered log of every write it received.  For every prefix p of that log
+//! (from the first successful flush/close on) the image "initial bytes + writes[0..p]" is what a
+//! write-back cache that honours flush leaves after a power cut at that point.  Each image is
+//! mounted afresh and listed with contents; TLC decides which flushed files must be found there.
+use serde_json::{json, Map, Value};
 
-use crate::dev::SimDevice;
-use crate::exec::{Cfg, Out};
+use crate::dev::{SimDevice, WlogRec};
+use crate::exec::{make_volume, remount_view, Cfg, Out};
 
-pub fn enumerate(_prog: &Value, _dev: &SimDevice, _cfg: &Cfg, _out: &mut Out) {}
+pub fn enumerate(prog: &Value, dev: &SimDevice, cfg: &Cfg, out: &mut Out) {
+    let vol = cfg.j.get("vol").cloned().unwrap_or(json!({}));
+    let Ok(mut img) = make_volume(&vol) else { return };
+    let wlog: Vec<WlogRec> = dev.0.borrow().wlog.clone();
+    let from = out.first_flush.unwrap_or(wlog.len() as u64) as usize;
+    let stride = prog["crash"].get("stride").and_then(Value::as_u64).unwrap_or(1).max(1) as usize;
+    let mut last = String::new();
+    for p in 0..=wlog.len() {
+        if p > 0 {
+            if let WlogRec::Write { off, data } = &wlog[p - 1] {
+                img.write_at(*off, data);
+            }
+        }
+        if p < from || (p - from) % stride != 0 && p != wlog.len() {
+            continue;
+        }
+        let rv = remount_view(&img, cfg);
+        let s = rv.to_string();
+        let mut ev = Map::new();
+        ev.insert("op".into(), json!("crash"));
+        ev.insert("p".into(), json!(p));
+        ev.insert("r".into(), json!({"k":"ok"}));
+        if s != last {
+            ev.insert("rv".into(), rv);
+            last = s;
+        }
+        out.emit(ev);
+    }
+}
